@@ -291,8 +291,28 @@ def _aged(vols, d):
     return [({h: (c, a + d) for h, (c, a) in bb.items()}, [(h, r - d, c, a + d) for (h, r, c, a) in tb]) for bb, tb in vols]
 
 
+def _split_seq(model):
+    """race model line -> (line without the seq= field, list of the two sequential-history outcomes or None)"""
+    if " seq=" not in model:
+        return model, None
+    base, seq = model.rsplit(" seq=", 1)
+    return base, seq.split("|")
+
+
 def compare(case, impl, model):
-    return impl == model
+    """model = implementation; for a race case additionally (link between the two layers, checked on every
+    case): the implementation's outcome (both responses, GET, directory) is the outcome of one of the two
+    SEQUENTIAL histories [P,T] / [T,P] as computed by the HISTORY model (field seq= of the model line)."""
+    base, seq = _split_seq(model)
+    if impl != base:
+        return False
+    if case.startswith("race ") and base not in ("bad-op",) and not base.startswith("error"):
+        if seq is None:
+            return False
+        kv = _kv(impl)
+        mine = "P=%s;T=%s;get=%s;dir=%s" % (kv.get("P"), kv.get("T"), kv.get("get"), kv.get("dir"))
+        return mine in seq
+    return True
 
 
 def _hist_fields(case):
